@@ -375,6 +375,13 @@ def run(ctx):
 
 
     when_rule(ctx)
+    # ---- nothing in the sample classes updates stored weights / densities in place (a shifted log_w is no longer L + P - Q)
+    from ..report import reuse
+    from . import c08, c10
+    reuse(ctx, lambda c: c10.own_rule(c, only_module="aspire.samples"), ("C10.own",), "C02own",
+          "ownership rule shared with C10: an in-place update through an alias of self.log_w / a density field changes the stored value")
+    # ---- the same functional on SMC populations: the step's evidence ratio is the log of the mean incremental weight
+    reuse(ctx, c08.run, ("C08.ratio", "C08.var"), "C02smc", "identity shared with C08: log of the mean (incremental) weight over all N particles")
 
 
 def _set_on_every_path(v):
@@ -449,6 +456,7 @@ _S = "src/aspire/samples.py"
 _U = "src/aspire/utils.py"
 _I = "src/aspire/samplers/importance.py"
 MUTANTS = [
+    M("rejection sampling shifts the stored log-weights in place", _S, "log_w = self.log_w - self.xp.max(self.log_w)\n        accept = log_w > log_u", "log_w = self.log_w\n        log_w -= self.xp.max(log_w)\n        accept = log_w > log_u", "C02own"),
     M("importance: weights never computed", _I, "samples.compute_weights()\n", "", "C02.when"),
     M("importance: weights before the likelihood", _I, "samples.log_likelihood = samples.array_to_namespace(\n            self.log_likelihood(samples)\n        )\n        samples.compute_weights()",
       "samples.log_likelihood = samples.xp.zeros(len(samples.x))\n        samples.compute_weights()\n        samples.log_likelihood = samples.array_to_namespace(\n            self.log_likelihood(samples)\n        )", "C02.when"),
